@@ -48,7 +48,7 @@ var (
 		"billion",
 		"trillion",
 		"quadrillion",
-		"quantillion",
+		"quintillion",
 		"sextillion",
 		"septillion",
 		"octillion",
